@@ -2,4 +2,4 @@
 # Behaviour-preserving refactorings written by independent sub-agents (byte-identical outputs verified by them):
 # every check must stay silent on each of them. Prints "<name> violations=<n>" per refactoring.
 cd /verif/refactors || exit 2
-ls -d R*/ | tr -d / | xargs -P 8 -I{} sh -c '/verif/tools/refaccheck.sh /verif/refactors/{}/patch.diff | grep -E "violations=|APPLY|BUILD|finding:" | sed "s#/verif/refactors/##" | cut -c1-200' 
+ls -d */ | tr -d / | xargs -P 8 -I{} sh -c '/verif/tools/refaccheck.sh /verif/refactors/{}/patch.diff | grep -E "violations=|APPLY|BUILD|finding:" | sed "s#/verif/refactors/##" | cut -c1-200' 
